@@ -14,6 +14,8 @@ C06 (dst legacy|new|new-pre <tspecs> <startup> <r0> <n> <rEnd> <zreal> <znaive> 
                                                                      clock and real time of each run (real time ≤ rEnd)
                                                                      zreal/znaive = ((threshold offset) …) ascending: offset of the wall
                                                                      clock at real time / of a naive local time; cronlists = ((id t1 t2 …) …)
+C06 (lag legacy|new <tspecs> <startup> <r0> <n> <rEnd> <ppm> <cronlists>)   → t@w …  the same loop with a wall clock running ppm
+                                                                     millionths slower than the sleep clock (w rounded to ms)
 C06 (off <offast>)                                                 → <µs>
 C06 (civil <day>) → y m d w          C06 (days y m d) → <day>|invalid
 tspec   = (once <dt>) | (period <dt> <offast> <dt|none> num den) | (cron id)
@@ -153,6 +155,22 @@ def handle (x : Sexp) : String :=
       let runs := dstLoop (if sub == "legacy" then WFlags.legacy else if sub == "new-pre" then WFlags.newPreFix else WFlags.new) TFlags.current P (ss.map (·.1)) st ⟨stepLookup zrT⟩ k r
       " ".intercalate ((runs.filter (fun x => x.2.2 ≤ re)).map (fun x => s!"{x.1}@{x.2.1}@{x.2.2}"))
     | _, _, _, _, _, _, _, _ => "err parse"
+  | .list [.atom "lag", .atom sub, specs, startup, r0, cnt, rEnd, ppm, cl] =>
+    -- a wall clock that runs `ppm` millionths slower than the clock asyncio sleeps on (no zone change); prints t@w, w in ms
+    match Sexp.listOf? tspec? specs, startup.int?, r0.int?, cnt.nat?, rEnd.int?, ppm.int?, Sexp.listOf? cronList? cl with
+    | some ss, some st, some r, some k, some re, some pm, some clT =>
+      let P : Params :=
+        { base := C07.Params.trivial
+          fdiv := fun e per => e / per
+          cronNext := fun id t =>
+            match clT.find? (fun row => row.1 == id) with
+            | some row => (row.2.find? (fun x => t < x)).getD (t + 1)
+            | none => t + 1
+          utcOff := fun _ => 0 }
+      let Z : Zone := ⟨fun x => st - r - ((x - r) * pm + 500000) / 1000000⟩     -- rounded to the nearest µs like timedelta
+      let runs := dstLoop (if sub == "legacy" then WFlags.legacy else WFlags.new) TFlags.current P (ss.map (·.1)) st Z k r
+      " ".intercalate ((runs.filter (fun x => x.2.2 ≤ re)).map (fun x => s!"{x.1}@{(x.2.1 + 500) / 1000 * 1000}"))
+    | _, _, _, _, _, _, _ => "err parse"
   | .list [.atom "off", o] =>
     match offAst? o with
     | some a => toString (offUs a)
